@@ -12,7 +12,7 @@ Nonces == {1, 2, 3}          \* ids; the harness maps them to boundary 64-bit va
 Ops == {[op |-> "reseed", a |-> d, b |-> 0] : d \in Datas}
        \cup {[op |-> "draw", a |-> e, b |-> 0] : e \in {1, 2, 3}}                \* a = extension degree
        \cup {[op |-> "clz", a |-> n, b |-> 0] : n \in Nonces}
-       \cup {[op |-> "ints", a |-> n, b |-> m] : n \in {1, 2}, m \in {1, 3}}      \* b = how many
+       \cup {[op |-> "ints", a |-> n, b |-> m] : n \in {1, 2, 3}, m \in {1, 3}}      \* b = how many
 
 VARIABLES coin, hist, outs, done
 vars == <<coin, hist, outs, done>>
